@@ -488,7 +488,8 @@ TRUSTED_BASE = [
     "Coq 8.16.1 kernel (incl. vm_compute); no native_compute; no axioms (every property theorem prints 'Closed under the global context')",
     "translator bm2coq (Rust/syn) on its stated subset, fail-closed per item; cross-checked by the correspondence run; its table "
     "extractor reads rustc's own macro expansion (nightly -Zunpretty=expanded); its pin digests (2 x 64-bit FNV of the normalised token "
-    "text) tie the hand-written models (derive crate, offset_of!, write_zeroes/fill_zeroes, zeroed_rc/arc, BoxBytes accessors) to the text they transcribe",
+    "text) tie the hand-written models (derive crate, offset_of!, zeroed, zeroed_rc/arc, the str and From<Box<T>> BoxBytes impls) to the text they transcribe; "
+    "write_zeroes/fill_zeroes are translated statement by statement (zero.rs) and Model/DropLang.v gives the statements Rust's drop and unwinding semantics",
     "extraction: ExtrOcamlBasic only (Extract Inductive bool/option/unit/prod/list/sumbool/sumor/comparison; no Extract Constant), OCaml 4.13.1, oracle/driver.ml",
     "Rust harnesses + case generators + this Python runner; rustc/cargo 1.95.0",
     "Base/Prims.v, Base/Own.v: meaning of core/alloc primitives (from_raw_parts, align_offset, transmute_copy, read_unaligned; into_raw/from_raw "
